@@ -164,10 +164,13 @@ let syncs_answered (sc : scase) (il : ev list) : bool =
   match untyped sc.sc_limit sc.sc_raw with
   | Some (_, rest) ->
       let (fs, _) = frames sc.sc_limit rest in
-      let tb t = int_of_byte t in
-      let complete = List.for_all (function FMsg (t, _) -> tb t = 83 || tb t = 72 | FOver (_, _, None) | FBad _ -> true | _ -> false) fs in
-      let syncs = List.length (List.filter (function FMsg (t, _) -> tb t = 83 | _ -> false) fs) in
-      let readies = List.length (List.filter (function Out (BReady _) -> true | _ -> false) il) in
+      (* [plain_frame], [syncs], [readies]: extracted from Spec/Oracles.v; for logs with one turn per frame the bound is
+         a theorem about every log the reply-discipline oracle accepts and about the model
+         (Props/C10.v, C10_accepted_logs_answer_every_sync / C10_rejected_messages_swallow_nothing); here it is
+         applied to the whole log of a stream delivered in any segmentation, the startup's ReadyForQuery included *)
+      let complete = List.for_all plain_frame fs in
+      let syncs = int_of_nat (syncs fs) in
+      let readies = int_of_nat (readies il) in
       (not complete) || readies >= 1 + syncs
   | None -> true
 let check_C10 fields =
